@@ -20,11 +20,11 @@ BASE = dict(
     CsrcCounts="{0, 1, 15, 16}", PadLens="{0, 1, 255}", PayLens="{0, 1, 3, 4, 1200}",
     ExtIds1="{1, 7, 14}", ExtLens1="{1, 2, 3, 4, 16}", ExtIds2="{1, 15, 255}", ExtLens2="{0, 1, 3, 255}",
     MaxEls=3, ReportCounts="{0, 1, 31, 32}", TextLens="{0, 1, 255, 256}", MaxCompound=3, ExtDepth=3,
-    NackBits=6, MaxNackSet=2, BufCaps="{1, 2, 3}", BufSeqs="{65534, 65535, 0, 1}", BufDepth=4,
+    NackBits=6, MaxNackSet=3, BufCaps="{1, 2, 3}", BufSeqs="{65534, 65535, 0, 1}", BufDepth=4,
     GapDeltas="{0, 1, 2, 3, 129, 130, 32767, 32768, 32769, 65535}", GapDepth=3,
 )
 
-MODES = ["rtp", "rtcp", "compound", "ext", "nack", "rtx", "buf", "gap"]
+MODES = ["rtp", "rtcp", "compound", "foreign", "ext", "nack", "rtx", "buf", "gap"]
 
 TIERS = {
     "quick": {m: {} for m in MODES},
@@ -34,8 +34,9 @@ TIERS = {
                     ExtLens2="{0, 1, 2, 3, 4, 254, 255}"),
         "rtcp": dict(ReportCounts="{0, 1, 2, 30, 31, 32, 33}", TextLens="{0, 1, 2, 3, 4, 254, 255, 256, 300}"),
         "compound": dict(MaxCompound=4),
-        "ext": dict(ExtIds1="{1, 2, 7, 14}", ExtLens1="{1, 2, 3, 4, 15, 16}", ExtDepth=4),
-        "nack": dict(MaxNackSet=3),
+        "foreign": dict(MaxCompound=4),
+        "ext": dict(ExtLens1="{1, 2, 3, 4, 15, 16}", ExtDepth=4),
+        "nack": dict(MaxNackSet=4),
         "rtx": {},
         "buf": dict(BufDepth=5, BufCaps="{1, 2, 3, 4}"),
         "gap": dict(GapDepth=4, GapDeltas="{0, 1, 2, 3, 4, 128, 129, 130, 131, 257, 32767, 32768, 32769, 65534, 65535}"),
@@ -72,7 +73,8 @@ def gen_mode(ck, tier, mode, consts):
     cases = os.path.join(ck.dir, f"cases_{tier}_{mode}.ndjson")
     try:
         res = vlib.tlc("MC_RtpWire", os.path.basename(cfg), tags=("CASE",), sinks={"CASE": cases},
-                       timeout=3000 if tier == "thorough" else 600, heap="4g", tag=f"MC_RtpWire_{mode}")
+                       timeout=3000 if tier == "thorough" else 600, heap="4g", tag=f"MC_RtpWire_{mode}",
+                       extra=("-maxSetSize", "20000000"))   # KSets builds large intermediate sets
     finally:
         try:
             os.remove(cfg)
